@@ -281,7 +281,7 @@ def scenarios(ctx):
             for _k in range(2):
                 table[rnd.randrange(len(table))] = rnd.choice(["inf", "nan"])
         mode = rnd.choice(["thr", "nsim", "quantile"])
-        sc = dict(kind="e2e", mode=mode, bs=bs, n=n, table=table, seed=rnd.randint(0, 10 ** 6), maxpar=rnd.choice([1, 2, 3]),
+        sc = dict(kind="e2e", mode=mode, bs=bs, n=n, table=table, seed=(0 if rnd.random() < 0.08 else rnd.randint(0, 10 ** 6)), maxpar=rnd.choice([1, 2, 3]),
                   width=rnd.choice([0, 0, 2]))
         if mode == "nsim":
             sc["n_sim"] = n + rnd.randint(0, 3 * bs)
